@@ -268,8 +268,10 @@ Inductive spells_string (q : byte) : list N -> list byte -> Prop :=
 | ss_cons c cs w1 w2 : spells_char q c w1 -> spells_string q cs w2 -> spells_string q (c :: cs) (w1 ++ w2).
 Close Scope N_scope.
 
-(* what the reader must find under a leaf *)
-Definition lex_ok (lx : lex) (txt : list byte) : Prop :=
+(* what the reader must find under a leaf.  [strict]: the code as shipped reads the literal of ^".."
+   from the text of the whole insensitive_string pair, so nothing may separate `^` from the quote;
+   with fixes/C07-1 it reads the inner string pair ([LStr] on the child) and the outer text is free. *)
+Definition lex_ok (strict : bool) (lx : lex) (txt : list byte) : Prop :=
   match lx with
   | LNone => True
   | LName n => txt = n
@@ -278,27 +280,27 @@ Definition lex_ok (lx : lex) (txt : list byte) : Prop :=
   | LInt z => spells_int z txt
   | LStr cs => exists ew, txt = 34%N :: ew ++ [34%N] /\ spells_string 34%N cs ew
   | LChr c => exists ew, txt = 39%N :: ew ++ [39%N] /\ spells_char 39%N c ew
-  | LIns cs => exists ew, txt = 94%N :: 34%N :: ew ++ [34%N] /\ spells_string 34%N cs ew
+  | LIns cs => if strict then exists ew, txt = 94%N :: 34%N :: ew ++ [34%N] /\ spells_string 34%N cs ew else True
   end.
 
 (* ---------------------------------------------------------------------------------------------
    5. a token tree over w has shape k and spells its leaves
    --------------------------------------------------------------------------------------------- *)
-Fixpoint smatch (w : list byte) (k : skel) (t : mtree) {struct k} : Prop :=
+Fixpoint smatch (strict : bool) (w : list byte) (k : skel) (t : mtree) {struct k} : Prop :=
   match k with
   | SK r lx ch =>
-    m_rule t = r /\ lex_ok lx (text w t) /\
+    m_rule t = r /\ lex_ok strict lx (text w t) /\
     (fix all2 (ks : list skel) (ts : list mtree) {struct ks} : Prop :=
        match ks, ts with
        | [], [] => True
-       | k' :: ks', t' :: ts' => smatch w k' t' /\ all2 ks' ts'
+       | k' :: ks', t' :: ts' => smatch strict w k' t' /\ all2 ks' ts'
        | _, _ => False
        end) ch (m_children t)
   end.
-Fixpoint smatch_list (w : list byte) (ks : list skel) (ts : list mtree) : Prop :=
+Fixpoint smatch_list (strict : bool) (w : list byte) (ks : list skel) (ts : list mtree) : Prop :=
   match ks, ts with
   | [], [] => True
-  | k :: ks', t :: ts' => smatch w k t /\ smatch_list w ks' ts'
+  | k :: ks', t :: ts' => smatch strict w k t /\ smatch_list strict w ks' ts'
   | _, _ => False
   end.
 
@@ -374,18 +376,26 @@ Fixpoint shape_list_eqb (ks : list skel) (ts : list mtree) : bool :=
   | _, _ => false
   end.
 
-(* KnownClass on a forest:
-   (1) an insensitive_string pair whose string child does not start right after the `^`;
-   (2) an expression pair that is not the body of a rule and starts with a choice_operator. *)
-Fixpoint known_forest (top : bool) (t : mtree) : bool :=
+(* KnownClass on a forest (decidable), for the code as shipped:
+   (1) [known_insens_gap]: an insensitive_string pair whose string child does not start right after the `^`;
+   (2) [known_nested_bar]: an expression pair that is not the body of a rule and starts with a choice_operator. *)
+Fixpoint known_insens_gap (t : mtree) : bool :=
   match t with
   | MT r s e ch =>
     (match r, ch with
      | MInsensitiveString, c :: _ => negb (Nat.eqb (m_start c) (Datatypes.S s))
+     | _, _ => false
+     end) ||
+    (fix any (l : list mtree) : bool := match l with [] => false | c :: l' => known_insens_gap c || any l' end) ch
+  end.
+Fixpoint known_nested_bar (top : bool) (t : mtree) : bool :=
+  match t with
+  | MT r s e ch =>
+    (match r, ch with
      | MExpression, c :: _ => negb top && mrule_eqb (m_rule c) MChoiceOperator
      | _, _ => false
      end) ||
     (fix any (l : list mtree) : bool :=
-       match l with [] => false | c :: l' => known_forest (mrule_eqb r MGrammarRule) c || any l' end) ch
+       match l with [] => false | c :: l' => known_nested_bar (mrule_eqb r MGrammarRule) c || any l' end) ch
   end.
-Definition known_class (f : list mtree) : bool := existsb (known_forest false) f.
+Definition known_class (f : list mtree) : bool := existsb known_insens_gap f || existsb (known_nested_bar false) f.
